@@ -6,22 +6,35 @@ import shutil
 from . import core
 
 RT = core.materialize(os.path.join(core.VERIF, "suites", "rt"), "rt")
-_BIN = None
+_BIN = {}
 
 
-def build():
-    global _BIN
-    if _BIN:
-        return _BIN
+class SuiteRejected(Exception):
+    """The suite's own (static, valid) sources no longer compile against the tree: the API the property is about broke."""
+
+    def __init__(self, diags):
+        Exception.__init__(self, diags[0]["message"] if diags else "rejected")
+        self.diags = diags
+
+
+def build(only=None):
+    """Builds all suites; when that fails, `only`'s suite alone (its cargo feature), so that a tree that breaks the API
+    of one suite does not take the others down.  Errors located in the suite's own sources raise SuiteRejected."""
+    key = only or "all"
+    if "all" in _BIN:
+        return _BIN["all"]
+    if key in _BIN:
+        return _BIN[key]
     lock = os.path.join(RT, "Cargo.lock")
     if not os.path.exists(lock):
         shutil.copy(os.path.join(core.REPO, "Cargo.lock"), lock)
     tgt = os.path.join(core.BUILD, "target-e2")
     env = core.cargo_env({"CARGO_TARGET_DIR": tgt})
     with core.BuildLock("e2"):
-        p, dt = core.run(["cargo", "build", "--offline", "--message-format=json"], cwd=RT, env=env)
+        p, dt = core.run(["cargo", "build", "--offline", "--message-format=json"] + (["--no-default-features", "--features", "s_" + only] if only else []), cwd=RT, env=env)
     exe = None
     errs = []
+    own = []
     for line in p.stdout.splitlines():
         try:
             m = json.loads(line)
@@ -31,15 +44,25 @@ def build():
             exe = m["executable"]
         if m.get("reason") == "compiler-message" and m["message"].get("level") == "error":
             errs.append(m["message"].get("rendered", ""))
+            if m.get("target", {}).get("name") == "rt":
+                sp = [x for x in m["message"].get("spans", []) if x.get("is_primary")]
+                own.append({"message": m["message"].get("message", ""), "code": (m["message"].get("code") or {}).get("code"),
+                            "file": sp[0]["file_name"] if sp else None, "line": sp[0]["line_start"] if sp else None,
+                            "rendered": m["message"].get("rendered", "")[:1500]})
+    if (p.returncode != 0 or not exe) and not only:
+        return None
     if p.returncode != 0 or not exe:
+        own = [d for d in own if d["message"] and not d["message"].startswith("aborting due to")]
+        if own:
+            raise SuiteRejected(own)
         raise core.MachineryError("runtime suite does not build against the current tree:\n%s\n%s" % ("\n".join(errs)[-5000:], p.stderr[-2000:]))
     core.log("[e4] suites built in %.1fs" % dt)
-    _BIN = exe
+    _BIN[key] = exe
     return exe
 
 
 def run_suite(name, tier, timeout=3600):
-    exe = build()
+    exe = build() or build(only=name)
     env = dict(os.environ)
     env["RUST_BACKTRACE"] = "0"
     p, dt = core.run([exe, name, tier], env=env, timeout=timeout)
@@ -48,3 +71,40 @@ def run_suite(name, tier, timeout=3600):
     out = json.loads(p.stdout.strip().splitlines()[-1])
     core.log("[e4] suite %s %s ran in %.1fs" % (name, tier, dt))
     return out
+
+
+SUITE_PROPERTY_API = {
+    "merge": "sylvia::utils::assert_no_intersection",
+    "intoresp": "sylvia::into_response::IntoResponse",
+    "remote": "sylvia::types::Remote with concrete, generic, dyn Interface and unsized parameters (serde, schema, storage)",
+    "builders": "the generated Executor / Querier helpers, InstantiateBuilder and Remote constructors",
+    "history": "the generated multitest helpers (CodeId, InstantiateProxy, Proxy, MigrateProxy)",
+}
+
+
+class _Stub(dict):
+    def __missing__(self, k):
+        return [] if k in ("msg_kinds", "programs") else 0
+
+
+def stub():
+    return _Stub()
+
+
+def run_suite_into(res, name, tier, timeout=3600):
+    """run_suite, with a rejection of the suite's own valid sources by the compiler reported as violations of res's property."""
+    try:
+        return run_suite(name, tier, timeout=timeout)
+    except SuiteRejected as e:
+        seen = set()
+        for d in e.diags:
+            key = (d["code"], d["file"], d["message"][:80])
+            if key in seen:
+                continue
+            seen.add(key)
+            res.violation({"kind": "compile", "cls": "suite_rejected", "suite": name, "code": d["code"], "file": d["file"], "line": d["line"], "rendered": d["rendered"],
+                           "what": "the static %s suite (valid programs using %s) no longer compiles against the tree: %s %s at suites/rt/%s:%s" % (
+                               name, SUITE_PROPERTY_API[name], d["code"], d["message"][:300], d["file"], d["line"])})
+        res.add(states=1, transitions=1, traces=1, evaluations=1)
+        res.mark_nontrivial("suite_rejected")
+        return None
